@@ -332,6 +332,30 @@ impl chain::Listen for Gatekeeper {
     }
 }
 
+/// Verification hooks (feature `verif`, off by default): read-only projection of the in-memory state.
+#[cfg(feature = "verif")]
+impl Gatekeeper {
+    /// Returns the last known block height and (user, available_slots, subscription_start, subscription_expiry) for every user in memory.
+    pub fn verif_state(&self) -> (u32, Vec<(UserId, u32, u32, u32)>) {
+        (
+            self.last_known_block_height.load(Ordering::Acquire),
+            self.registered_users
+                .lock()
+                .unwrap()
+                .iter()
+                .map(|(id, info)| {
+                    (
+                        *id,
+                        info.available_slots,
+                        info.subscription_start,
+                        info.subscription_expiry,
+                    )
+                })
+                .collect(),
+        )
+    }
+}
+
 #[cfg(test)]
 mod tests {
     use super::*;
